@@ -32,6 +32,8 @@ type realSess struct {
 	inbox        []byte
 	peerSawClose bool
 	reading      bool
+	readTimes    []time.Time // paced peer: when each Read returned
+	w            *world
 }
 
 func (r *realSess) peerReadLoop() {
@@ -57,7 +59,44 @@ func (r *realSess) startReading() {
 	}
 	r.reading = true
 	r.mu.Unlock()
+	if r.w != nil && r.w.pace > 0 {
+		amp := 1
+		if r.fc != nil && r.fc.amp > 1 {
+			amp = r.fc.amp
+		}
+		go r.peerPacedLoop(r.w.pace, r.w.chunk*amp, amp)
+		return
+	}
 	go r.peerReadLoop()
+}
+
+// peerPacedLoop is the steadily but slowly reading peer: one chunk, a pause, the next chunk ... until the end of the
+// stream.  It records when every Read returned.  With amp > 1 it folds amp wire bytes back into one byte.
+func (r *realSess) peerPacedLoop(pace time.Duration, chunk, amp int) {
+	if amp < 1 {
+		amp = 1
+	}
+	buf := make([]byte, chunk)
+	raw := 0
+	for {
+		n, err := r.peer.Read(buf)
+		now := time.Now()
+		r.mu.Lock()
+		r.readTimes = append(r.readTimes, now)
+		for j := 0; j < n; j++ {
+			raw++
+			if raw%amp == 0 {
+				r.inbox = append(r.inbox, buf[j])
+			}
+		}
+		if err != nil {
+			r.peerSawClose = true
+			r.mu.Unlock()
+			return
+		}
+		r.mu.Unlock()
+		time.Sleep(pace)
+	}
 }
 
 func (r *realSess) peerWrite(b byte) {
@@ -146,6 +185,47 @@ type world struct {
 	strays  atomic.Int32
 
 	ln net.Listener // own listener for directly started TCP sessions
+
+	// slow-drain scenarios: the peer reads chunk bytes every pace; amp see faultConn
+	pace  time.Duration
+	chunk int
+	amp   int
+}
+
+// watchdog measures how late a 2 ms tick can be in this process while a scenario runs: the scheduling latency the
+// machine imposes at this moment.  It is evidence for the timing gate of the slow-drain class, never for a verdict.
+type watchdog struct {
+	stop   chan struct{}
+	done   chan struct{}
+	maxGap time.Duration
+}
+
+func startWatchdog() *watchdog {
+	d := &watchdog{stop: make(chan struct{}), done: make(chan struct{})}
+	go func() {
+		defer close(d.done)
+		last := time.Now()
+		for {
+			select {
+			case <-d.stop:
+				return
+			default:
+			}
+			time.Sleep(2 * time.Millisecond)
+			now := time.Now()
+			if g := now.Sub(last); g > d.maxGap {
+				d.maxGap = g
+			}
+			last = now
+		}
+	}()
+	return d
+}
+
+func (d *watchdog) end() time.Duration {
+	close(d.stop)
+	<-d.done
+	return d.maxGap
 }
 
 func newWorld(readTimeout, writeTimeout time.Duration) *world {
@@ -246,8 +326,18 @@ func (w *world) issue(l *label, natural bool) error {
 		if err != nil {
 			return err
 		}
-		r := &realSess{id: l.i, tr: l.tr, peer: pc, direct: true}
+		r := &realSess{id: l.i, tr: l.tr, peer: pc, direct: true, w: w}
 		r.fc = newFaultConn(sc, l.i)
+		if w.amp > 1 && l.tr == trTcp {
+			r.fc.amp = w.amp
+			// small socket buffers: the writer blocks early instead of parking megabytes in the kernel
+			if tc, ok := sc.(*net.TCPConn); ok {
+				_ = tc.SetWriteBuffer(32 << 10)
+			}
+			if tc, ok := pc.(*net.TCPConn); ok {
+				_ = tc.SetReadBuffer(32 << 10)
+			}
+		}
 		w.mu.Lock()
 		w.sess = append(w.sess, r)
 		w.byName[string(r.fc.name)] = r
